@@ -48,6 +48,7 @@ struct WriteRec {
 struct Shared {
     log: Mutex<Vec<Arc<WriteRec>>>,
     scanned: AtomicUsize,
+    dumped: AtomicUsize,
     seen: Mutex<HashSet<(u64, u64)>>,
     /// `iogate`: device writes issued while the gate is shut wait until `ioopen`
     gate: tokio::sync::watch::Sender<bool>,
@@ -63,6 +64,7 @@ impl Default for Shared {
         Self {
             log: Default::default(),
             scanned: Default::default(),
+            dumped: Default::default(),
             seen: Default::default(),
             gate: tokio::sync::watch::channel(false).0,
             rgate: tokio::sync::watch::channel(false).0,
@@ -441,6 +443,7 @@ fn run_script(script: &[&str], n: usize) {
     let univ = geti_d(&cfg.kv, "univ", 4);
     let index_size = geti_d(&cfg.kv, "index", 4096) as usize;
     let settle = geti_d(&cfg.kv, "settle", 0);
+    let _ = foyer_storage::verif::take_block_events();
     let dir = scratch().join(format!("verif-hs-{}-{}", std::process::id(), n));
     let crashdir = scratch().join(format!("verif-hs-{}-{}-crash", std::process::id(), n));
     let _ = std::fs::remove_dir_all(&dir);
@@ -615,6 +618,34 @@ fn run_script(script: &[&str], n: usize) {
                                 out.push(format!("{k}={}", t.await.unwrap_or_else(|_| "PANIC".into())));
                             }
                             format!("bg[{}]", out.join(","))
+                        }
+                        "wlog" => {
+                            // the device writes issued since the last `wlog`: partition:offset:length, `z` = a zeroed page
+                            let log = sh.log.lock();
+                            let from = sh.dumped.load(Ordering::SeqCst);
+                            let mut out = vec![];
+                            for rec in log[from..].iter() {
+                                let z = rec.data.len() == PAGE && rec.data.iter().all(|b| *b == 0);
+                                out.push(format!("{}:{}:{}{}", rec.part, rec.off, rec.data.len(), if z { "z" } else { "" }));
+                            }
+                            sh.dumped.store(log.len(), Ordering::SeqCst);
+                            format!("w[{}]", out.join(","))
+                        }
+                        "bev" => {
+                            // hook H2: the block manager's events since the last `bev`
+                            use foyer_storage::verif::BlockEvent as E;
+                            let ev = foyer_storage::verif::take_block_events();
+                            let out: Vec<String> = ev
+                                .iter()
+                                .map(|e| match e {
+                                    E::Wait => "W".to_string(),
+                                    E::Handed(b) => format!("H{b}"),
+                                    E::Finished(b) => format!("F{b}"),
+                                    E::ReclaimStart(b) => format!("S{b}"),
+                                    E::ReclaimDone(b) => format!("D{b}"),
+                                })
+                                .collect();
+                            format!("b[{}]", out.join(","))
                         }
                         "sleep" => {
                             tokio::time::sleep(Duration::from_millis(geti_d(&kv, "ms", 20))).await;
